@@ -32,6 +32,7 @@ sets = [
     ("C06order", lambda: prolog.replay_clause_order([])),
     ("C55", lambda: prolog.replay_hex_escapes([])),
     ("C55canon", lambda: prolog.replay_canonical([])),
+    ("numcmp", lambda: prolog.replay_number_comparisons([], "C04")),
 ]
 only = sys.argv[1:]
 bad = 0
